@@ -122,9 +122,51 @@ def nondet_findings(tree: ast.AST) -> List[tuple]:
             for a in n.names:
                 if n.module.split(".")[0] in NONDET_MODULES and a.name in NONDET_CALLS:
                     imported.add(a.asname or a.name)
+    # parents, to see how the result of id() is used
+    par = {}
+    for n in ast.walk(tree):
+        for c in ast.iter_child_nodes(n):
+            par[c] = n
+
+    def identity_only(call: ast.Call) -> bool:
+        """id(x) used only to ask 'have I seen this very object': operand of in / not in, or
+        added to a local set whose only other uses are such membership tests (never iterated,
+        ordered, printed or returned): the numeric value cannot reach any output."""
+        p = par.get(call)
+        if isinstance(p, ast.Compare) and len(p.ops) == 1 and isinstance(p.ops[0], (ast.In, ast.NotIn)) and \
+                p.left is call and isinstance(p.comparators[0], ast.Name):
+            coll = p.comparators[0].id
+        elif isinstance(p, ast.Call) and isinstance(p.func, ast.Attribute) and p.func.attr == "add" and \
+                isinstance(p.func.value, ast.Name) and p.args and p.args[0] is call:
+            coll = p.func.value.id
+        else:
+            return False
+        fn = p
+        while fn is not None and not isinstance(fn, (ast.FunctionDef, ast.AsyncFunctionDef)):
+            fn = par.get(fn)
+        if fn is None:
+            return False
+        for x in ast.walk(fn):
+            if isinstance(x, ast.Name) and x.id == coll:
+                q = par.get(x)
+                if isinstance(x.ctx, ast.Store):
+                    # only "coll = set()"
+                    if not (isinstance(q, (ast.Assign, ast.AnnAssign)) and isinstance(q.value, ast.Call) and
+                            isinstance(q.value.func, ast.Name) and q.value.func.id == "set" and not q.value.args):
+                        return False
+                elif isinstance(q, ast.Compare) and len(q.ops) == 1 and \
+                        isinstance(q.ops[0], (ast.In, ast.NotIn)) and q.comparators[0] is x:
+                    continue
+                elif isinstance(q, ast.Attribute) and q.attr == "add" and isinstance(par.get(q), ast.Call):
+                    continue
+                else:
+                    return False
+        return True
     for n in ast.walk(tree):
         if isinstance(n, ast.Call):
             if isinstance(n.func, ast.Name) and n.func.id == "id":
+                if identity_only(n):
+                    continue
                 out.append((n, "id() call"))
             elif isinstance(n.func, ast.Name) and n.func.id in NONDET_CALLS and n.func.id in imported:
                 out.append((n, "%s() call" % n.func.id))
